@@ -699,7 +699,7 @@ const c18ImgPH = "{{#image pic}}"
 
 var c18ImgPositions = []string{"alone", "before", "after", "both"}
 var c18ImgRuns = []string{"single", "split", "own-runs"}
-var c18ImgNeigh = []string{"none", "paragraphs"}
+var c18ImgNeigh = []string{"none", "paragraphs", "base-pictures"}
 var c18ImgLocs = []string{"body", "cell", "nested"}
 
 func c18ImgRunSpec(pos, runs string) []c18R {
@@ -737,6 +737,14 @@ func c18BuildImage(cs c18Case) (*c18B, string) {
 		}
 		b.place(cs.Loc, s, ps...)
 	})
+	if cs.Neigh == "base-pictures" {
+		// the base document has pictures of its own, in the format of the supplied picture and in another one, after
+		// the placeholder: they must still show their own bytes in the rendered document (seed C18-c1)
+		_, err := b.doc.AddImageFromData(pngBytes(3, 2, 77), "base.png", document.ImageFormatPNG, 3, 2, nil)
+		b.e(err)
+		_, err = b.doc.AddImageFromData(jpegBytes(4, 2, 78), "base.jpeg", document.ImageFormatJPEG, 4, 2, nil)
+		b.e(err)
+	}
 	return b, ""
 }
 
